@@ -2,10 +2,10 @@
 (* One JSON line per class definition enumerated by XoSerial: the field descriptors with what the contract says about *)
 (* each key (must / mustnot / may be present) and what the constructor supplies for an absent key.                    *)
 EXTENDS XoSerial, Json
-CONSTANTS Stride, Seed     \* definitions with more than SeqUpTo fields: every Stride-th one is exported (all of them are CHECKED)
+CONSTANTS FullUpTo, Stride, Seed     \* definitions with more than FullUpTo fields: every Stride-th one is exported (all of them are CHECKED)
 RECURSIVE Mix(_, _)
 Mix(c, k) == IF k = 0 THEN Seed ELSE (Mix(c, k - 1) * 31 + Code(c[k])) % 1000003
-Picked == Len(cls) <= SeqUpTo \/ Mix(cls, Len(cls)) % Stride = 0
+Picked == Len(cls) > 0 /\ (Len(cls) <= FullUpTo \/ Mix(cls, Len(cls)) % Stride = 0)
 Case == [i \in 1..Len(cls) |-> [kind |-> cls[i].kind, dk |-> cls[i].dk, ren |-> cls[i].ren, vc |-> cls[i].vc,
                                 pres |-> Presence(cls[i]), sup |-> Supplied(cls[i])]]
 Emit == Picked => PrintT(ToJson([case |-> Case, ctx |-> ctx]))
